@@ -63,6 +63,20 @@ type ClientSpec struct {
 	ConsRoot  string  `json:"cons_root"`
 	ConsNVH   string  `json:"cons_nvh"`
 	CreateNow int64   `json:"create_now"`
+	// entries written into the client store right after CreateClient (stores that no update history of the unchanged code
+	// produces: the gates of the Verify* functions and of the pruning step must hold for every store)
+	Inject []InjectJ `json:"inject,omitempty"`
+}
+
+// InjectJ: one height's worth of directly written entries.
+type InjectJ struct {
+	Height HeightJ `json:"height"`
+	Cons   bool    `json:"cons"` // consensus state (ConsTime, ConsRoot, ConsNVH)
+	Time   int64   `json:"time,omitempty"`
+	Root   string  `json:"root,omitempty"`
+	NVH    string  `json:"nvh,omitempty"`
+	PT     string  `json:"pt,omitempty"` // raw value of the processed-time key (hex); empty: not written
+	Iter   bool    `json:"iter"`         // iteration key
 }
 
 type Step struct {
@@ -486,6 +500,19 @@ func (e *env) start(spec Spec) *run {
 	if err := k.CreateClient(e.ctxAt(r.ctx, spec.Client.CreateNow, 0), clientName, cs, cons); err != nil {
 		panic(err)
 	}
+	for _, in := range spec.Client.Inject {
+		store := k.ClientStore(r.ctx, clientName)
+		h := in.Height.height()
+		if in.Cons {
+			k.SetClientConsensusState(r.ctx, clientName, h, tmclient.NewConsensusState(tmTime(in.Time), hlib.UnHex(in.Root), hlib.UnHex(in.NVH)))
+		}
+		if in.PT != "" {
+			store.Set(tmclient.ProcessedTimeKey(h), hlib.UnHex(in.PT))
+		}
+		if in.Iter {
+			tmclient.SetIterationKey(store, h)
+		}
+	}
 	r.res.InitStore = dump(e.cdc, k.ClientStore(r.ctx, clientName))
 	return r
 }
@@ -601,6 +628,7 @@ func main() {
 	in := flag.String("in", "", "replay: file of specs (JSON lines) instead of generating")
 	out := flag.String("out", "/dev/stdout", "output file (JSON lines)")
 	withCorpus := flag.Bool("corpus", true, "run the fixed corpus histories before the generated ones")
+	sweepN := flag.Int("sweep", 0, "exhaustive threshold sweep over power vectors in {1,2,3}^n, n <= this (0: none)")
 	flag.Parse()
 
 	a := app.Setup(false, nil)
@@ -630,6 +658,11 @@ func main() {
 	}
 	if *withCorpus {
 		for _, r := range corpus(e) {
+			w.Emit(r)
+		}
+	}
+	if *sweepN > 0 {
+		for _, r := range sweep(e, *sweepN) {
 			w.Emit(r)
 		}
 	}
